@@ -48,7 +48,7 @@ impl Leaf {
             vx::V::Unknown(r) => ("U", Value::Null, r.clone()),
         };
         let failed = vx::take_failed_atoms();
-        self.obs.push(json!({"n": name, "v": code, "m": model, "why": why, "atoms": failed}));
+        self.obs.push(json!({"n": name, "v": code, "m": model, "why": why, "atoms": failed, "ab": vx::assumption_violated()}));
         matches!(v, vx::V::Proved)
     }
     /// Record a structural (non-numeric) obligation decided by the harness itself.
@@ -68,7 +68,7 @@ impl Leaf {
                 None => Value::Null,
             }
         };
-        self.obs.push(json!({"n": name, "v": if ok {"P"} else {"R"}, "m": model, "why": detail, "atoms": []}));
+        self.obs.push(json!({"n": name, "v": if ok {"P"} else {"R"}, "m": model, "why": detail, "atoms": [], "ab": vx::assumption_violated()}));
         ok
     }
 }
